@@ -66,10 +66,11 @@ def eval_case(case):
 
 def activity_case(rng, thorough=False):
     strip = rng.random() < 0.4
+    wide = rng.random() < 0.06      # more lanes than one block of the GPU-kernel launch is wide (32): a second block column
     if rng.random() < (0.6 if strip else 0.3):
         c = circ.xor_tree(rng)        # long waveforms at the ports (capture windows, overflow markers)
     else:
-        c = circ.rand_circuit(rng, n_gates=rng.randint(2, 16 if not thorough else 40), p_dangling=0.05,
+        c = circ.rand_circuit(rng, n_gates=rng.randint(2, 6 if wide else (16 if not thorough else 40)), p_dangling=0.05,
                               xor_bias=rng.choice([0.0, 0.5, 0.8]), n_in=rng.randint(2, 6))
     n = len(c.lines) + 3
     nacc = rng.randint(1, 4)
@@ -81,7 +82,7 @@ def activity_case(rng, thorough=False):
             a_ctrl.append([-1, 0, 0])
     return {'kind': 'activity', 'circuit': base64.b64encode(pickle.dumps(c)).decode(), 'a_ctrl': a_ctrl,
             'caps': rng.choice([4, 8, 16, 'skewed', 'skewed', 'perline'] + (['branchsmall'] * 4 if strip else [])), 'dseed': rng.randint(0, 2**31 - 1), 'sseed': rng.randint(0, 2**31 - 1),
-            'sims': rng.choice([1, 2, 3]), 'cuda': rng.random() < 0.3, 'props': rng.choice([1, 1, 2]), 'multi': rng.random() < 0.5,
+            'sims': rng.choice([33, 40]) if wide else rng.choice([1, 2, 3]), 'cuda': True if wide else rng.random() < 0.3, 'props': rng.choice([1, 1, 2]), 'multi': rng.random() < 0.5,
             'time': rng.choice(['M', '10', '25.5', '40']), 'strip': strip}
 
 
